@@ -1407,6 +1407,10 @@ M('C05', 'svd_robust: the gesvd fallback written with keywords (twin)', 'tenpy/l
   "    return scipy.linalg.svd(a, full_matrices, compute_uv, overwrite_a, check_finite, 'gesvd')", "    return scipy.linalg.svd(a, full_matrices=full_matrices, compute_uv=compute_uv, overwrite_a=overwrite_a, check_finite=check_finite, lapack_driver='gesvd')",
   None, expect='silent')
 
+M('C06', 'LegCharge.sort scatters the block sizes (round-5 seed a)', CH,
+  "        block_sizes = self.get_block_sizes()\n        cp._set_block_sizes(block_sizes[perm_qind])", "        block_sizes = np.empty(self.block_number, dtype=np.intp)\n        block_sizes[perm_qind] = self.get_block_sizes()\n        cp._set_block_sizes(block_sizes)",
+  'PERM-mixed-direction')
+
 # ---------------------------------------------------------------- C16 / C19
 M('C16', 'GMRES restart: relative residual norm used for normalisation (round-3 seed b)', KRY,
   """        self.total_error.append([npc.norm(self.rs[-1]) / self.b_norm])
